@@ -1473,10 +1473,11 @@ class t2data(object):
             ('cx', 'f8'),
             ('cy', 'f8'),
             ('cz', 'f8')])
+        def centre(blk): # (block centres are optional)
+            return (np.nan,) * 3 if blk.centre is None else tuple(blk.centre)
         blkdata = np.array([(i, blk.name, blk.name.ljust(8).encode(),
                              rockdict[blk.rocktype.name],
-                             blk.volume, blk.ahtx, blk.pmx, blk.centre[0],
-                             blk.centre[1], blk.centre[2])
+                             blk.volume, blk.ahtx, blk.pmx) + centre(blk)
                             for i, blk in enumerate(self.grid.blocklist)], dtype = block_dt)
         for var in ['ahtx', 'pmx', 'cx', 'cy', 'cz']:
             # replace nan values with zero:
